@@ -1,6 +1,7 @@
 package gen
 
 import (
+	"strings"
 	"fmt"
 
 	"verif/harness/internal/core"
@@ -204,6 +205,28 @@ func (g *StmtGen) LongInsert() *proto.NStmt {
 		n.Rows = append(n.Rows, row)
 	}
 	return n
+}
+
+// HugeToken is a statement with ONE literal or quoted identifier of 1.2-6 KB
+// made of characters of mixed UTF-8 width: the token spans several of the
+// front end's read buffers, with characters straddling every boundary.
+func (g *StmtGen) HugeToken() *proto.NStmt {
+	r := g.R
+	pieces := []string{"€", "é", "日", "𝄞", "ß", "x", "yz", " ", "a b", "ж"}
+	b := []byte("abc"[:r.Intn(4)])
+	for want := r.Range(1200, 6000); len(b) < want; {
+		b = append(b, pieces[r.Intn(len(pieces))]...)
+	}
+	lit := string(b)
+	switch r.Intn(4) {
+	case 0:
+		return &proto.NStmt{Kind: "select", From: []proto.NTable{{Name: "t"}}, Items: []proto.NItem{{Kind: "expr", Expr: &proto.Cond{Op: "val", LHS: model.ColOp("id")}}, {Kind: "expr", Expr: &proto.Cond{Op: "val", LHS: model.LitOp(proto.Str(lit))}}}}
+	case 1:
+		return &proto.NStmt{Kind: "delete", Name: "t", Where: &proto.Cond{Op: "=", LHS: model.ColOp("s"), RHS: model.LitOp(proto.Str(lit))}}
+	case 2:
+		return &proto.NStmt{Kind: "select", Star: true, From: []proto.NTable{{Name: strings.ReplaceAll(lit, " ", "_") + " q"}}} // a name that needs quotes
+	}
+	return &proto.NStmt{Kind: "insert", Name: "t", Rows: [][]proto.Val{{proto.Int(1), proto.Str(lit)}, {proto.Int(2), proto.Str("short")}}}
 }
 
 func (g *StmtGen) Update() *proto.NStmt {
